@@ -54,6 +54,8 @@ def c01_jobs(tier):
         for role in (0, 1):
             for hm in (0, 1):
                 jobs.append(job(ROOT, "HProtectRoundTrip", [s, role, hm, 0, 0]))
+                jobs.append(job(ROOT, "HProtectRoundTrip", [s, role, hm + 2 + 4 * ((s + role) % 2), 0, 40, 0]))
+                jobs.append(job(ROOT, "HProtectRoundTrip", [s, role, hm + 4, 0, PAYLOAD_KINDS[(s + 3 * role + hm) % 15], 0]))
                 if tier == "quick":
                     ks = [PAYLOAD_KINDS[(s * 4 + role * 2 + hm + i * 5) % len(PAYLOAD_KINDS)] for i in range(3)]
                     jobs.append(job(ROOT, "HProtectRoundTrip", [s, role, hm, 0, ks[0], 0]))
@@ -403,7 +405,32 @@ def c12_jobs(tier):
     return jobs
 
 
+UA_RAND = [SEC + ".GenerateRandomNumber"]
+
+
+def c11_jobs(tier):
+    jobs = []
+    for k, n in ((0, 3), (1, 3), (2, 3), (3, 3), (4, 3), (5, 2), (6, 2)):
+        for i in range(n):
+            for w in (0, 1):
+                jobs.append(job(SEC, "HNameRoundTrip", [k, i, w]))
+    for k in range(7):
+        for f in range(3):
+            for w in (0, 1):
+                jobs.append(job(SEC, "HDecodeSymbolic", [k, f, w]))
+    for ike in (0, 1):
+        for which in range(4):
+            for f in range(3):
+                jobs.append(job(SEC, "HProposalRejected", [ike, which, f], bytes_full=True, unwind_assume=UA_RAND))
+    return jobs
+
+
 PROPS = {
+    "C11": dict(jobs=c11_jobs, claim="Exhaustive over the advertised names (3 encr, 3 integ, 3 prf, 2 dh, 2 esn; IKE and Child variants), directly and through a real SA Marshal/Unmarshal: ToTransform gives the registry identifier and attribute of an independent IANA/RFC table, DecodeTransform gives back the same descriptor, lengths match the RFC table. The universal part is one solver query per decode function instead of 65536 identifiers: for a transform with symbolic identifier and symbolic attribute (absent / TV with symbolic type and value / TLV), directly and after the wire, result != nil implies exactly the advertised (identifier, key-length attribute type 14 in TV form, value in {128,192,256}, matching key size); a single-choice proposal with one foreign transform makes NewIKESAKey / NewChildSAKeyByProposal fail.",
+                bounds=lambda t: "all advertised names; symbolic identifier x attribute forms {absent, TV, TLV of 1..3 octets}; foreign transform in each of the 4 positions of an IKE / Child proposal",
+                outside="TLV values longer than 3 octets; proposals with several transforms per type (the library reads the first)",
+                assumptions=["NewIKESAKey with a foreign integrity transform runs the Diffie-Hellman step before it fails: there the public and shared values are assumed to have no leading zero octet and the exponent rejection loop is unwound twice (unwinding assumption); C09 decides those cases"] + CRYPTO_ASSUME),
+
     "C12": dict(jobs=c12_jobs, claim="For every byte string up to the bound (arbitrary content, per payload body decoder, per EAP packet, and whole datagrams including chains with unsupported payloads): decode ok and encode ok imply that the re-encoding decodes to an equal value and encodes to itself (fixed point after one step); canonical datagrams of the independent encoder (zero reserved bits, no unsupported payloads, exact lengths, transforms grouped by ascending type) re-encode byte-identically. Loops are unrolled (the contents of what was decoded matter), and re-encoding concretises symbolic field lengths by solver enumeration, which is what limits the bound.",
                 bounds=lambda t: "payload bodies: SA <= %d octets, TS/CP <= %d, others <= %d; EAP packets <= %d; whole datagrams <= %d octets; canonical datagrams from the generator shapes (every kind alone, 15 pairs)" % ((20, 24, 28, 20, 36) if t == "quick" else (26, 36, 44, 28, 38)),
                 outside="longer byte strings; a panic inside Encode of a decoded value would be reported as a panic violation (none found)"),
